@@ -432,6 +432,11 @@ def run_threads_case(case, acc):
                     w.t.spawn(pid, 1000 + a, ppid=1, comm=b"mu%d" % a)
                     kind = "spawn"
                 oplog.append((a, next(clock), kind, pid))
+                if r.random() < 0.25:
+                    # another part of the program drops the cache while the iterators run (the cache is private to psutil:
+                    # membership and order of what is yielded do not depend on it)
+                    ps.process_iter.cache_clear()
+                    acc.count("cache_clear_calls_under_running_iterators")
                 time.sleep(0)           # hand the GIL over: every change lands at a different point of the iterations
         except BaseException as e:  # noqa: BLE001
             errors.append(("mutator", e))
